@@ -13,6 +13,7 @@
  *                      built from the case's events with the real
  *                      struct inotify_event layout); anything else is forwarded;
  *   close              is recorded and forwarded.
+ * The fd handler runs under a 3 s CPU-time watchdog (the harness never hangs).
  * iv_main() is not used: after iv_inotify_register(this) the loop would call
  * this->fd.handler_in(this->fd.cookie); the harness makes exactly that call.
  *
@@ -40,7 +41,8 @@
  * stdout: one line per case, one segment per op joined by " | ":
  *   act:   rc=<rc><dump>
  *   feed:  rc=<rc> n=<deliveries>{ H<w> <wd>:<mask>:<cookie>:<name> m<w->mask> E[set at entry] A[rcs] X[set at exit]|X-}<dump>
- *   <dump> = { D<i>[<wd>><w>,..]} for every live instance, from the real tree
+ *   <dump> = { D<i>[<wd>><w>,..][ !term<i>]} for every live instance, from the real tree; !term<i> when
+ *            its ->term is not NULL (it may only point into a running iv_inotify_got_event)
  *   FATAL  for the op in which iv_fatal was called and every later op
  */
 #ifndef _GNU_SOURCE
@@ -54,7 +56,9 @@
 #include <stdlib.h>
 #include <string.h>
 #include <unistd.h>
+#include <signal.h>
 #include <sys/eventfd.h>
+#include <sys/time.h>
 #include <sys/inotify.h>
 #include <iv.h>
 #include <iv_avl.h>
@@ -250,6 +254,26 @@ static void on_fatal(const char *msg)
 	exit(3);
 }
 
+/* ---- watchdog: the fd handler must return (a parse loop that does not advance never would) ---- */
+static void on_watchdog(int sig)
+{
+	static const char msg[] = "inotify_drv: watchdog: iv_inotify_got_event did not return within 3 s of CPU time\n";
+
+	(void)sig;
+	if (write(2, msg, sizeof(msg) - 1) < 0)
+		_exit(5);
+	_exit(5);
+}
+
+static void watchdog(int seconds)
+{
+	struct itimerval it;
+
+	memset(&it, 0, sizeof(it));
+	it.it_value.tv_sec = seconds;
+	setitimer(ITIMER_VIRTUAL, &it, NULL);
+}
+
 /* ---- dumps through the real tree ---- */
 static void dump_tree(const char *tag, struct iv_inotify *in)
 {
@@ -280,6 +304,9 @@ static void dump_all(void)
 
 			snprintf(tag, sizeof(tag), "D%d", i);
 			dump_tree(tag, islots[i].in);
+			/* outside iv_inotify_got_event ->term must not point anywhere */
+			if (islots[i].in->term != NULL)
+				outf(" !term%d", i);
 		}
 	}
 }
@@ -634,6 +661,7 @@ static void do_feed(char *spec)
 		data_served = 0;
 		n_read = 0;
 		feed_active = 1;
+		watchdog(3);
 		if (setjmp(fatal_jb) == 0) {
 			fatal_armed = 1;
 			h(ck);
@@ -641,6 +669,7 @@ static void do_feed(char *spec)
 		} else {
 			dead = 1;
 		}
+		watchdog(0);
 		feed_active = 0;
 		cur_inst = 0;
 		{
@@ -662,6 +691,7 @@ int main(void)
 	size_t cap = 0;
 
 	iv_set_fatal_msg_handler(on_fatal);
+	signal(SIGVTALRM, on_watchdog);
 	iv_init();
 
 	ocap = 1 << 16;
